@@ -5,8 +5,8 @@ from vf import common
 CHECK = dict(
     id="C49", level="fault_enumeration",
     rule=("loop-free programs of random decodable integer instructions per architecture mode whose "
-          "registers point at unmapped bytes, a read-only page, a page boundary or a 3-byte read-only page / "
-          "2-byte hole lying between writable bytes, run on the Python and GCC "
+          "registers point at unmapped bytes, a read-only page, a page boundary or a 2-byte read-only page / "
+          "1-byte hole lying between writable bytes, run on the Python and GCC "
           "back ends with jit_maxline in {1,2,4,50} (faulting instruction at the start, middle or end of its "
           "block); at the first access violation: PC must be an instruction start, the fault flag set, and "
           "registers and every memory byte equal to the pre-instruction snapshot taken by a single-step "
@@ -26,7 +26,7 @@ ARCHS = ["x86_32", "x86_64", "x86_16", "arml", "armb", "armtl", "aarch64l", "aar
 
 
 def shards(tier, seed, scale):
-    per = 14 if tier == "quick" else 500
+    per = 24 if tier == "quick" else 500
     out = []
     n = 28
     for i in range(n):
